@@ -83,7 +83,7 @@ def cases(tier, seed):
         idx += 1
     for k_, pat in enumerate(["pure_imag", "real_only", "axis_i", "axis_j", "axis_k", "real_j", "real_k", "i_k", "j_k", "complex_subfield", "real_i_j", "all",
                               "pure_imag+masked", "real_j+masked", "j_k+masked", "all+masked",
-                              "struct:herm_psd", "struct:herm_indef", "struct:unitary", "struct:scaled_unitary", "struct:diag", "struct:upper_tri"]):
+                              "struct:herm_psd", "struct:herm_indef", "struct:unitary", "struct:scaled_unitary", "struct:diag", "struct:upper_tri", "struct:cross", "struct:arrowhead"]):
         for rep_ in range(2 if tier == "quick" else 12):
             out.append({"kind": "patterns", "cls": "component_patterns", "pattern": pat, "idx": idx, "seed": seed})
             idx += 1
@@ -115,7 +115,18 @@ def _patterns(spec, ctx, R):
         # square structured operands (Hermitian definite / indefinite, unitary and scaled unitary, diagonal, triangular): the same recurrence
         n = m = max(2, min(m, n))
         sc_ = pat.split(":", 1)[1]
-        As_ = gen.structured(rng, sc_.replace("scaled_", ""), n, n)
+        if sc_ in ("cross", "arrowhead"):
+            # mass concentrated in one full row AND one full column (cross) / first row, first column and the diagonal (arrowhead), 9 .. 12 rows:
+            # ||A||_1 ||A||_inf is then far above ||A||_F^2 - the documented start is A^H / ||A||_F^2 whatever other norms suggest
+            n = m = int(rng.integers(9, 13))
+            cc_ = rng.standard_normal((n, n, 4)) * 0.02
+            r_, c_ = (int(rng.integers(0, n)), int(rng.integers(0, n))) if sc_ == "cross" else (0, 0)
+            cc_[r_, :] = refq.fa(refq.unit_quats(rng, n)); cc_[:, c_] = refq.fa(refq.unit_quats(rng, n))
+            if sc_ == "arrowhead":
+                cc_[np.arange(n), np.arange(n), 0] += 2.0
+            As_ = refq.qa(cc_)
+        else:
+            As_ = gen.structured(rng, sc_.replace("scaled_", ""), n, n)
         if sc_ == "scaled_unitary":
             As_ = As_ * 2.5
         if sc_ in ("upper_tri", "diag"):
